@@ -262,6 +262,43 @@ End Sched.
 
 Arguments Idle {S D W}.
 Arguments WEnd {S D W}.
+Arguments WLockVm {S D W}.
+Arguments WUpdate {S D W}.
+Arguments WLoop {S D W}.
+Arguments WInvoke {S D W}.
+Arguments WInCb {S D W}.
+Arguments SReg {S D W}.
+Arguments SInit {S D W}.
+Arguments SInCb {S D W}.
+Arguments SUnlock {S D W}.
+Arguments UMark {S D W}.
+Arguments w_new {S D R}.
+Arguments w_delta {S D R}.
+Arguments w_bump {S D R}.
+Arguments w_ret {S D R}.
+Arguments mkW {S D R}.
+Arguments lastUpdate {S D}.
+Arguments unsubd {S D}.
+Arguments exec {S D}.
+Arguments log {S D}.
+Arguments incb {S D}.
+Arguments overlap {S D}.
+Arguments late {S D}.
+Arguments unsub_ret {S D}.
+Arguments returned {S D}.
+Arguments regat {S D}.
+Arguments initv {S D}.
+Arguments gotinit {S D}.
+Arguments ndel {S D}.
+Arguments val {S D W R}.
+Arguments uid {S D W R}.
+Arguments ord {S D W R}.
+Arguments vm {S D W R}.
+Arguments reg {S D W R}.
+Arguments cbs {S D W R}.
+Arguments thr {S D W R}.
+Arguments hist {S D W R}.
+Arguments rets {S D W R}.
 Arguments Write {W}.
 Arguments Subscribe {W}.
 Arguments Unsub {W}.
@@ -279,8 +316,8 @@ Section VarInst.
   (* Compute(f): updateValue, variable_impl.go:109-120; the call returns previousValue *)
   Definition v_wr (f : V -> V) (cur : V) : wres V (V * V) V :=
     let n := tr cur (f cur) in
-    if eqV n cur then mkW _ _ _ cur None false cur
-    else mkW _ _ _ n (Some (cur, n)) true cur.
+    if eqV n cur then mkW cur None false cur
+    else mkW n (Some (cur, n)) true cur.
   Definition v_wskip (_ : V -> V) : option V := None.
   Definition v_eqD (a b : V * V) : bool := eqV (fst a) (fst b) && eqV (snd a) (snd b).
 
@@ -307,11 +344,11 @@ Inductive sop :=
 Definition s_wr (w : sop) (s : N) : wres N (N * N) (N * N) :=
   match w with
   | SApply m => let a := s_applied s m in
-                mkW _ _ _ (s_apply s m) (if mut_empty a then None else Some a) true a
+                mkW (s_apply s m) (if mut_empty a then None else Some a) true a
   | SCompute f => let a := s_applied s (f s) in
-                  mkW _ _ _ (s_apply s (f s)) (Some a) true a
+                  mkW (s_apply s (f s)) (Some a) true a
   | SReplace e => let a := (N.ldiff e s, N.ldiff s e) in   (* set_impl.go:129-141 after 0e0e80f *)
-                  mkW _ _ _ e (Some a) true (0%N, snd a)
+                  mkW e (Some a) true (0%N, snd a)
   end.
 Definition s_wskip (w : sop) : option (N * N) :=
   match w with SApply m => if mut_empty m then Some (0%N, 0%N) else None | _ => None end.
@@ -323,7 +360,7 @@ Definition s_run := run N (N * N) sop (N * N) s_nonzero s_initD s_wr s_wskip.
 (* The pinned Replace (before 0e0e80f, defect D13): added = all new, deleted = all previous. *)
 Definition s_wr_pinned (w : sop) (s : N) : wres N (N * N) (N * N) :=
   match w with
-  | SReplace e => mkW _ _ _ e (Some (e, s)) true (0%N, s)
+  | SReplace e => mkW e (Some (e, s)) true (0%N, s)
   | _ => s_wr w s
   end.
 Definition s_run_pinned := run N (N * N) sop (N * N) s_nonzero s_initD s_wr_pinned s_wskip.
